@@ -123,6 +123,11 @@ func (s *State) enterLoop(b *ssa.BasicBlock, n int, phis []*ssa.Phi) {
 		}
 	}
 	s.inLoop[b] = true
+	for gk, gv := range s.ghost {
+		if strings.HasPrefix(gk, "wg|") {
+			s.ghost[fmt.Sprintf("wgentry|%d|%s", n, gk)] = gv
+		}
+	}
 	for _, inv := range invs {
 		x := s.invCtx()
 		v := x.eval(inv.Expr)
@@ -138,6 +143,17 @@ func (s *State) enterLoop(b *ssa.BasicBlock, n int, phis []*ssa.Phi) {
 
 func (s *State) backEdge(b *ssa.BasicBlock, n int) {
 	c := s.c
+	// WaitGroup counters are not havocked at loop heads: an iteration must leave them as it found them
+	for gk, gv := range s.ghost {
+		if !strings.HasPrefix(gk, "wg|") {
+			continue
+		}
+		entry := "0"
+		if ev, ok := s.ghost[fmt.Sprintf("wgentry|%d|%s", n, gk)]; ok {
+			entry = ev.S
+		}
+		s.oblige(fmt.Sprintf("wg-balance:L%d", n), nil, 1, eq(gv.S, entry), "a loop iteration changes a WaitGroup counter (an Add without its Done on some path, or the reverse)", false)
+	}
 	if c.con == nil {
 		return
 	}
